@@ -238,6 +238,49 @@ fn point_defect(p: &P3) -> bool {
     })
 }
 
+/// every coordinate clearly inside the addressable range (at least 0.1 mm away from each limit)
+fn point_clearly_ok(p: &[f64; 3]) -> bool {
+    let lim_lo = [-124164.0 * 0.025, -125789.0 * 0.025, -131072.0 * 0.025];
+    let lim_hi = 131071.0 * 0.025;
+    (0..3).all(|k| p[k].is_finite() && p[k] <= lim_hi - 0.1 && p[k] >= lim_lo[k] + 0.1)
+}
+fn point_clearly_bad(p: &[f64; 3]) -> bool {
+    let lim_lo = [-124164.0 * 0.025, -125789.0 * 0.025, -131072.0 * 0.025];
+    let lim_hi = 131071.0 * 0.025;
+    (0..3).any(|k| !p[k].is_finite() || p[k] > lim_hi + 0.1 || p[k] < lim_lo[k] - 0.1)
+}
+
+/// a device pose for the oracle: translation and a rotation about z by `quarter` quarter turns (exact in f64)
+#[derive(Clone, Copy, Debug)]
+pub struct Pose {
+    t: [f64; 3],
+    quarter: u8,
+}
+impl Pose {
+    fn rot(&self, v: [f64; 3], inverse: bool) -> [f64; 3] {
+        let q = if inverse { (4 - self.quarter % 4) % 4 } else { self.quarter % 4 };
+        match q {
+            1 => [-v[1], v[0], v[2]],
+            2 => [-v[0], -v[1], v[2]],
+            3 => [v[1], -v[0], v[2]],
+            _ => v,
+        }
+    }
+    fn to_global(&self, local: [f64; 3]) -> [f64; 3] {
+        let r = self.rot(local, false);
+        [r[0] + self.t[0], r[1] + self.t[1], r[2] + self.t[2]]
+    }
+    fn to_local(&self, g: [f64; 3]) -> [f64; 3] {
+        self.rot([g[0] - self.t[0], g[1] - self.t[1], g[2] - self.t[2]], true)
+    }
+    fn device(&self) -> AUTD3<UnitQuaternion> {
+        AUTD3 {
+            pos: Point3::new(self.t[0] as f32, self.t[1] as f32, self.t[2] as f32),
+            rot: UnitQuaternion::from_axis_angle(&Vector3::z_axis(), self.quarter as f32 * std::f32::consts::FRAC_PI_2),
+        }
+    }
+}
+
 fn stm_size_defect(total: usize, max: usize) -> bool {
     total < 2 || total > max
 }
@@ -324,7 +367,7 @@ fn pt(p: &P3) -> Point3 {
 }
 
 macro_rules! foci_n {
-    ($n:literal, $v:expr, $size:expr, $cfg:expr, $seg:expr, $tr:expr, $base:expr, $over:expr) => {{
+    ($n:literal, $v:expr, $size:expr, $cfg:expr, $seg:expr, $tr:expr, $base:expr, $over:expr, $style:expr) => {{
         let mut pts: Vec<ControlPoints<$n>> = (0..$size)
             .map(|_| ControlPoints { points: [ControlPoint::from(pt($base)); $n], intensity: EmitIntensity(0x80) })
             .collect();
@@ -336,8 +379,15 @@ macro_rules! foci_n {
                 }
             }
         }
-        $v.visit(WithLoopBehavior::new(FociSTM::new(pts, $cfg), LoopBehavior::Infinite, seg_of($seg), imm($tr)))
+        match $style {
+            1 => $v.visit(FociSTM::new(pts, $cfg)),
+            2 => $v.visit(WithLoopBehavior::new(FociSTM::new(pts, $cfg), finite3(), seg_of($seg), imm($tr))),
+            _ => $v.visit(WithLoopBehavior::new(FociSTM::new(pts, $cfg), LoopBehavior::Infinite, seg_of($seg), imm($tr))),
+        }
     }};
+}
+fn finite3() -> LoopBehavior {
+    LoopBehavior::Finite(NonZeroU16::new(3).unwrap())
 }
 
 fn line(np: usize) -> Line {
@@ -356,26 +406,33 @@ fn stm_w<D: autd3_core::datagram::DatagramL>(d: D) -> WithLoopBehavior<D> {
 }
 
 pub fn build<V: Vis>(d: &D1, v: V) -> V::R {
+    build_s(d, 0, v)
+}
+
+/// `style`: see `World::style` (review C05 gap 4: the `Datagram for D: DatagramL` blanket path and finite loops must
+/// validate exactly like the `With*` wrappers with an infinite loop)
+pub fn build_s<V: Vis>(d: &D1, style: u8, v: V) -> V::R {
     match d {
+        D1::Mod { len, cfg, .. } if style == 1 => v.visit(autd3::modulation::Custom::new(pr_bytes(0xC05 + *len as u64, *len), cfg.real())),
         D1::Mod { len, cfg, seg, tr } => v.visit(WithLoopBehavior::new(
             autd3::modulation::Custom::new(pr_bytes(0xC05 + *len as u64, *len), cfg.real()),
-            LoopBehavior::Infinite,
+            if style == 2 { finite3() } else { LoopBehavior::Infinite },
             seg_of(*seg),
             imm(*tr),
         )),
         D1::Foci { n, size, cfg, seg, tr, base, over } => {
             let c = cfg.real();
             match n {
-                0 => foci_n!(0, v, *size, c, *seg, *tr, base, over),
-                1 => foci_n!(1, v, *size, c, *seg, *tr, base, over),
-                2 => foci_n!(2, v, *size, c, *seg, *tr, base, over),
-                3 => foci_n!(3, v, *size, c, *seg, *tr, base, over),
-                4 => foci_n!(4, v, *size, c, *seg, *tr, base, over),
-                5 => foci_n!(5, v, *size, c, *seg, *tr, base, over),
-                6 => foci_n!(6, v, *size, c, *seg, *tr, base, over),
-                7 => foci_n!(7, v, *size, c, *seg, *tr, base, over),
-                8 => foci_n!(8, v, *size, c, *seg, *tr, base, over),
-                _ => foci_n!(9, v, *size, c, *seg, *tr, base, over),
+                0 => foci_n!(0, v, *size, c, *seg, *tr, base, over, style),
+                1 => foci_n!(1, v, *size, c, *seg, *tr, base, over, style),
+                2 => foci_n!(2, v, *size, c, *seg, *tr, base, over, style),
+                3 => foci_n!(3, v, *size, c, *seg, *tr, base, over, style),
+                4 => foci_n!(4, v, *size, c, *seg, *tr, base, over, style),
+                5 => foci_n!(5, v, *size, c, *seg, *tr, base, over, style),
+                6 => foci_n!(6, v, *size, c, *seg, *tr, base, over, style),
+                7 => foci_n!(7, v, *size, c, *seg, *tr, base, over, style),
+                8 => foci_n!(8, v, *size, c, *seg, *tr, base, over, style),
+                _ => foci_n!(9, v, *size, c, *seg, *tr, base, over, style),
             }
         }
         D1::GainStm { mode, size, cfg, seg, tr } => {
@@ -387,7 +444,11 @@ pub fn build<V: Vis>(d: &D1, v: V) -> V::R {
                 1 => GainSTMMode::PhaseFull,
                 _ => GainSTMMode::PhaseHalf,
             };
-            v.visit(WithLoopBehavior::new(GainSTM::new(gains, cfg.real(), GainSTMOption { mode }), LoopBehavior::Infinite, seg_of(*seg), imm(*tr)))
+            match style {
+                1 => v.visit(GainSTM::new(gains, cfg.real(), GainSTMOption { mode })),
+                2 => v.visit(WithLoopBehavior::new(GainSTM::new(gains, cfg.real(), GainSTMOption { mode }), finite3(), seg_of(*seg), imm(*tr))),
+                _ => v.visit(WithLoopBehavior::new(GainSTM::new(gains, cfg.real(), GainSTMOption { mode }), LoopBehavior::Infinite, seg_of(*seg), imm(*tr))),
+            }
         }
         D1::LineF { np, cfg } => v.visit(stm_w(FociSTM::new(line(*np), cfg.real()))),
         D1::LineG { np, cfg } => v.visit(stm_w(GainSTM::new(line(*np), cfg.real(), GainSTMOption::default()))),
@@ -460,12 +521,15 @@ impl Sleep for NoSleep {
 }
 
 fn option() -> SenderOption<NoSleep> {
+    option_p(false)
+}
+fn option_p(parallel: bool) -> SenderOption<NoSleep> {
     SenderOption {
         send_interval: Duration::ZERO,
         receive_interval: Duration::ZERO,
         // non-zero so that an unanswered frame is an error; the emulator answers synchronously
         timeout: Some(Duration::from_micros(1)),
-        parallel: ParallelMode::Off,
+        parallel: if parallel { ParallelMode::On } else { ParallelMode::Off },
         sleeper: NoSleep,
     }
 }
@@ -473,6 +537,12 @@ fn option() -> SenderOption<NoSleep> {
 pub struct World {
     pub ctl: Controller<RecLink>,
     pub ndev: usize,
+    /// send with `ParallelMode::On` (the `par_bridge` branch of `OperationHandler::pack`)
+    pub par: bool,
+    /// how the real datagram is wrapped: 0 = `WithLoopBehavior` / `WithSegment`, infinite loop (as written in the op
+    /// line); 1 = the plain datagram (`FociSTM::new(..)`, `GainSTM::new(..)`, the bare modulation: segment 0,
+    /// Immediate, infinite by default); 2 = `WithLoopBehavior` with a finite loop
+    pub style: u8,
 }
 
 fn err_name(e: &AUTDDriverError) -> String {
@@ -499,7 +569,8 @@ impl Vis for SendV<'_> {
         D::G: OperationGenerator<O2 = NullOp>,
         AUTDDriverError: From<<<D::G as OperationGenerator>::O1 as Operation>::Error>,
     {
-        self.w.ctl.sender(option()).send(d)
+        let o = option_p(self.w.par);
+        self.w.ctl.sender(o).send(d)
     }
 }
 
@@ -542,7 +613,8 @@ where
         AUTDDriverError: From<<<B::G as OperationGenerator>::O1 as Operation>::Error>,
     {
         // the real tuple datagram: `impl Datagram for (D1, D2)` + `CombinedOperationGenerator`
-        self.w.ctl.sender(option()).send((self.a, b))
+        let o = option_p(self.w.par);
+        self.w.ctl.sender(o).send((self.a, b))
     }
 }
 
@@ -554,10 +626,15 @@ impl World {
         for c in cpus.iter_mut() {
             c.update_with_sys_time(DcSysTime::ZERO);
         }
-        let link = RecLink { cpus, open: false, sends: 0 };
         let devices: Vec<AUTD3<UnitQuaternion>> = (0..ndev).map(|_| AUTD3 { pos: Point3::origin(), ..Default::default() }).collect();
+        Self::new_posed(cpus, devices)
+    }
+    /// the same with devices placed anywhere (review C05 gap 1: the focal-point check runs on device-local coordinates)
+    pub fn new_posed(cpus: Vec<CPUEmulator>, devices: Vec<AUTD3<UnitQuaternion>>) -> Self {
+        let ndev = devices.len();
+        let link = RecLink { cpus, open: false, sends: 0 };
         let ctl = Controller::open_with_option(devices, link, option()).expect("open");
-        let mut w = World { ctl, ndev };
+        let mut w = World { ctl, ndev, par: false, style: 0 };
         let base = [
             Dg::One(D1::SilSteps),
             Dg::One(D1::Mod { len: 1000, cfg: Sc::Div(10), seg: 0, tr: true }),
@@ -572,7 +649,10 @@ impl World {
     }
     pub fn send(&mut self, d: &Dg) -> Result<(), AUTDDriverError> {
         match d {
-            Dg::One(a) => build(a, SendV { w: self }),
+            Dg::One(a) => {
+                let st = self.style;
+                build_s(a, st, SendV { w: self })
+            }
             Dg::Pair(a, b) => build(a, PairV1 { w: self, b }),
         }
     }
@@ -607,11 +687,143 @@ impl Ctx {
 
     /// one case = one op line; `tag` names the generator for the distribution
     fn case(&mut self, ndev: usize, d: &Dg, tag: &str) {
-        let op = format!("case {ndev} {}", d.text());
+        self.case_m(ndev, None, d, tag)
+    }
+
+    /// as `case` (same op line, same model answer) with the real datagram built in another style (see `World::style`)
+    fn case_style(&mut self, ndev: usize, style: u8, d: &Dg, tag: &str) {
         let mut w = self.take_world(ndev);
+        w.style = style;
+        self.worlds[ndev - 1] = Some(w);
+        self.case_m(ndev, None, d, tag);
+        if let Some(w) = self.worlds[ndev - 1].as_mut() {
+            w.style = 0;
+        }
+        self.out.count(&format!("style:{}", match style { 1 => "plain-datagram", 2 => "finite-loop", _ => "with-wrapper" }));
+    }
+
+    /// review C05 gap 3: the same send with `ParallelMode::On` on two devices (`par_bridge().try_for_each` in
+    /// `OperationHandler::pack`). Implementation only (`note` line): which device's error comes back and how far the
+    /// other thread got is schedule dependent, so only the property itself is checked.
+    fn case_par(&mut self, d: &Dg) {
+        let op = format!("note par {}", d.text());
+        let mut w = self.take_world(2);
+        w.par = true;
         let before = w.snapshot();
         let sends0 = w.ctl.link().sends;
+        watch(op.clone());
         let r = guarded(|| w.send(d));
+        unwatch();
+        w.par = false;
+        let (frames, after) = match guarded(|| (w.ctl.link().sends - sends0, w.snapshot())) {
+            Ok(x) => x,
+            Err(_) => (usize::MAX, vec![]),
+        };
+        self.out.line(&op, "ok");
+        let res = match &r {
+            Ok(Ok(())) => "ok".to_string(),
+            Ok(Err(e)) => format!("err:{}", err_name(e)),
+            Err(_) => "panic".to_string(),
+        };
+        let changed = before != after;
+        if let Some((member, class)) = defect(d) {
+            let mut bad: Vec<String> = vec![];
+            match &r {
+                Ok(Ok(())) => bad.push("reported success".into()),
+                Err(m) => bad.push(format!("panicked ({m})")),
+                Ok(Err(_)) => {}
+            }
+            if class != Defect::Coordinate && (frames != 0 || changed) {
+                bad.push(format!("{frames} frame(s) reached the link{}", if changed { ", device state changed" } else { "" }));
+            }
+            if !bad.is_empty() {
+                self.out.violation(
+                    format!("{}:parallel", violation_key(d, member, class, &r)),
+                    format!("ParallelMode::On, 2 devices: {class:?} defect in `{}`: {} (result {res})", d.text(), bad.join("; ")),
+                    vec![op.clone()],
+                );
+            }
+        }
+        self.out.count("gen:parallel-on");
+        self.out.count(&format!("parallel:result:{}", if res == "ok" { "ok" } else if res == "panic" { "panic" } else { "err" }));
+        self.out.case(Some(fnv64(format!("par|{}", d.text()).as_bytes())));
+        if frames == 0 && !changed && r.is_ok() {
+            self.worlds[1] = Some(w);
+        }
+    }
+
+    /// review C05 gap 1: devices away from the origin / rotated. `FociSTMOp::pack` checks a point after
+    /// `p.transform(device.inv())`, per device. Implementation only (`note` line; the model assumes identity poses):
+    /// a point clearly outside the range of SOME device must be refused (never Ok, never a panic), a point clearly
+    /// inside the range of EVERY device must be accepted.
+    fn case_posed(&mut self, poses: &[Pose], global: [f32; 3], n: usize, idx: (usize, usize), size: usize, tag: &str) {
+        let p: P3 = [global[0].to_bits(), global[1].to_bits(), global[2].to_bits()];
+        // a valid point for every pose of this stream: 150 mm above the middle between the devices
+        let base: P3 = [0, 0, Z150];
+        let d = D1::Foci { n, size, cfg: StmC::Sc(Sc::Div(100)), seg: 0, tr: true, base, over: vec![(idx.0, idx.1, p)] };
+        let op = format!("note pose {} {}", poses.iter().map(|q| format!("{}/{}/{}/r{}", q.t[0], q.t[1], q.t[2], q.quarter)).collect::<Vec<_>>().join(","), d.text());
+        let g64 = [global[0] as f64, global[1] as f64, global[2] as f64];
+        let locals: Vec<[f64; 3]> = poses.iter().map(|q| q.to_local(g64)).collect();
+        let bad = locals.iter().any(point_clearly_bad);
+        let good = locals.iter().all(point_clearly_ok);
+        watch(op.clone());
+        let r = guarded(|| {
+            let cpus: Vec<CPUEmulator> = (0..poses.len()).map(|i| CPUEmulator::new(i, crate::fwc::NUM_TR)).collect();
+            let mut w = World::new_posed(cpus, poses.iter().map(|q| q.device()).collect());
+            w.send(&Dg::One(d.clone()))
+        });
+        unwatch();
+        self.out.line(&op, "ok");
+        let res = match &r {
+            Ok(Ok(())) => "ok".to_string(),
+            Ok(Err(e)) => format!("err:{}", err_name(e)),
+            Err(_) => "panic".to_string(),
+        };
+        let cls = if bad { "out-of-range-for-some-device" } else if good { "in-range-for-every-device" } else { "near-a-limit(not judged)" };
+        self.out.count(&format!("gen:{tag}"));
+        self.out.count(&format!("posed:{cls}:{}", if res == "ok" { "ok" } else if res == "panic" { "panic" } else { "err" }));
+        self.out.case(Some(fnv64(op.as_bytes())));
+        let what = if res == "panic" {
+            Some("panicked".to_string())
+        } else if bad && res == "ok" {
+            Some(format!("reported success although the point lies outside the range of a device (local coordinates {locals:?})"))
+        } else if good && res != "ok" {
+            Some(format!("was refused ({res}) although the point lies inside the range of every device (local coordinates {locals:?})"))
+        } else {
+            None
+        };
+        if let Some(w) = what {
+            self.out.violation(format!("C05:posed:{cls}:{res}:{}", poses.iter().map(|q| format!("{}r{}", q.t[0] + q.t[1], q.quarter)).collect::<Vec<_>>().join(",")), format!("`{op}` {w}"), vec![op.clone()]);
+        }
+    }
+
+    /// as `case`, with an enable mask (`mask[i]` = device i is enabled; `None` = all enabled, the old op line).
+    /// Pack-time validation runs per *enabled* device (`OperationHandler::pack` filters on `dev.enable`).
+    /// Op line `casem <ndev> <mask as 0/1 string, device 0 first> <dg>`.
+    fn case_m(&mut self, ndev: usize, mask: Option<&[bool]>, d: &Dg, tag: &str) {
+        let op = match mask {
+            None => format!("case {ndev} {}", d.text()),
+            Some(m) => format!("casem {ndev} {} {}", m.iter().map(|b| if *b { '1' } else { '0' }).collect::<String>(), d.text()),
+        };
+        let mut w = self.take_world(ndev);
+        if let Some(m) = mask {
+            for (i, en) in m.iter().enumerate() {
+                w.ctl.geometry_mut()[i].enable = *en;
+            }
+        }
+        let any_enabled = mask.is_none_or(|m| m.iter().any(|b| *b));
+        let before = w.snapshot();
+        let sends0 = w.ctl.link().sends;
+        watch(op.clone());
+        let r = guarded(|| w.send(d));
+        unwatch();
+        if mask.is_some() {
+            let _ = guarded(|| {
+                for dev in w.ctl.geometry_mut().iter_mut() {
+                    dev.enable = true;
+                }
+            });
+        }
         // a panic may have left the controller half-way: the world is rebuilt below
         let (frames, after) = match guarded(|| (w.ctl.link().sends - sends0, w.snapshot())) {
             Ok(x) => x,
@@ -630,7 +842,41 @@ impl Ctx {
         let changed = before != after;
         // ---- oracle: the property itself ----
         let df = defect(d);
-        if let Some((member, class)) = df {
+        // a disabled device never changes, whatever is sent (oracle-only clause of the mask dimension; masks with
+        // at least one enabled device — with none enabled see the observation below)
+        let mask_txt = mask.map(|m| m.iter().map(|b| if *b { '1' } else { '0' }).collect::<String>()).unwrap_or_default();
+        if let (Some(m), true) = (mask, any_enabled) {
+            let per = ALL_RES.len();
+            for (i, en) in m.iter().enumerate() {
+                if !*en && after.len() == before.len() && before[i * per..(i + 1) * per] != after[i * per..(i + 1) * per] {
+                    self.out.violation(
+                        format!("C05:disabled-device-changed:mask{mask_txt}:{}", d.text()),
+                        format!("device {i} is disabled but its state changed by `{}` (result {res})", d.text()),
+                        vec![op.clone()],
+                    );
+                }
+            }
+        }
+        if !any_enabled {
+            // OBSERVATION, not judged here (reviewer's C05 gap 2): with no enabled device nothing is packed, so no
+            // pack-time validation runs; the Sender hands the tx buffer as it is to the link once and returns Ok.
+            // Recorded in the distribution and compared with the model line (`sendMasked`); the property oracle is
+            // applied to masks with at least one enabled device only.
+            let cls = if df.is_some() { "defective" } else { "valid" };
+            self.out.count(&format!("observation:all-disabled:{cls}:R={res}:N={frames}"));
+            if changed {
+                // the tx buffer can hold a *fresh* message id over a half-written payload (left by an earlier
+                // pack-time error): the devices then execute it although nothing was packed for them
+                self.out.count(&format!("observation:all-disabled:{cls}:device-state-changed"));
+                if self.out.notes.len() < 12 {
+                    self.out.notes.push(format!("observation (not judged): `{op}` returned {answer} and changed device state (the tx buffer held a fresh msg id over a stale / half-written payload)"));
+                }
+            }
+            if r.is_err() {
+                self.out.violation(format!("C05:all-disabled-panic:{}", d.text()), format!("`{}` panicked with every device disabled", d.text()), vec![op.clone()]);
+            }
+        }
+        if let (Some((member, class)), true) = (df, any_enabled) {
             let mut bad: Vec<String> = vec![];
             match &r {
                 Ok(Ok(())) => bad.push("reported success".into()),
@@ -652,7 +898,10 @@ impl Ctx {
                 }
             }
             if !bad.is_empty() {
-                let key = violation_key(d, member, class, &r);
+                let mut key = violation_key(d, member, class, &r);
+                if mask.is_some() {
+                    key.push_str(&format!(":mask{mask_txt}"));
+                }
                 self.out.violation(
                     key,
                     format!("{:?} defect in {} `{}`: {} (result {res})", class, if matches!(d, Dg::Pair(..)) { format!("member {member} of tuple") } else { "datagram".into() }, d.text(), bad.join("; ")),
@@ -666,12 +915,15 @@ impl Ctx {
             Dg::Pair(a, b) => format!("pair({},{})", a.kind(), b.kind()),
         };
         self.out.count(&format!("gen:{tag}"));
+        if mask.is_some() {
+            self.out.count(&format!("mask:{mask_txt}"));
+        }
         self.out.count(&format!("kind:{kind}"));
         self.out.count(&format!("result:{res}"));
         self.out.count(&format!("defect:{}", df.map(|(m, c)| format!("{c:?}@{m}")).unwrap_or("none".into())));
         self.out.count(&format!("frames:{}", match frames { 0 => "0", 1 => "1", 2..=9 => "2-9", 10..=99 => "10-99", _ => "100+" }));
         let nontrivial = df.is_some() || frames > 1 || matches!(d, Dg::Pair(..));
-        self.out.case(if nontrivial { Some(fnv64(format!("{}|{res}|{frames}", shape_sig(d)).as_bytes())) } else { None });
+        self.out.case(if nontrivial { Some(fnv64(format!("{}|{:?}|{res}|{frames}", shape_sig(d), mask).as_bytes())) } else { None });
         // anything that touched the devices (or a panic) invalidates the shared world
         if frames == 0 && !changed && r.is_ok() {
             self.worlds[ndev - 1] = Some(w);
@@ -991,6 +1243,8 @@ fn rand_d1(r: &mut Rng, big: bool) -> D1 {
 
 pub fn run(args: &Args) {
     let mut ctx = Ctx { out: Out::new(&args.out), worlds: [None, None] };
+    // a send that never returns (e.g. an operation that can never become done) is a finding, not a hung check
+    start_watchdog(&args.out, 60);
     let thorough = args.tier == "thorough";
     let mut rng = Rng::new(args.seed ^ 0xC05_0000);
 
@@ -1241,6 +1495,170 @@ pub fn run(args: &Args) {
     // a defective base point (every index is bad) and an override outside the sequence (ignored)
     ctx.case(1, &Dg::One(D1::Foci { n: 2, size: 4, cfg: v100.clone(), seg: 0, tr: false, base: [NAN, NAN, NAN], over: vec![] }), "point-index");
     ctx.case(1, &Dg::One(D1::Foci { n: 2, size: 4, cfg: v100.clone(), seg: 0, tr: false, base: ok_point(), over: vec![(4, 0, [NAN, 0, 0]), (0, 2, [NAN, 0, 0])] }), "point-index");
+
+    // ---- enable masks (review C05 gap 2): one representative of every pack-time defect class (modulation size and
+    // sampling, Gain / SwapSegment::Gain transition, silencer time, focal point), generator-time classes and valid
+    // datagrams, with device 0 only / device 1 only / no device enabled. Partial masks: the property oracle applies
+    // in full (a check that looks only at geometry[0], or indexes operations by dev.idx(), fails here). No device:
+    // recorded as an observation and compared with the model (`sendMasked`), see `case_m`.
+    {
+        let nan_pt = D1::Foci { n: 1, size: 3, cfg: v100.clone(), seg: 0, tr: false, base: ok_point(), over: vec![(1, 0, [NAN, 0, Z150])] };
+        let reps: Vec<Dg> = vec![
+            Dg::One(mod1(65537)),
+            Dg::One(mod1(1)),
+            Dg::One(D1::Mod { len: 10, cfg: Sc::Freq(f(7000.0)), seg: 0, tr: false }),
+            Dg::One(D1::Mod { len: 700, cfg: Sc::Period(37_500), seg: 1, tr: true }),
+            Dg::One(D1::Gain { seg: 0, tr: Some(0x00) }),
+            Dg::One(D1::Gain { seg: 1, tr: Some(0x01) }),
+            Dg::One(D1::SwapGain { seg: 1, mode: 0x02 }),
+            Dg::One(D1::SilTime { i: 30_000, p: US, strict: true }),
+            Dg::One(D1::SilTime { i: US, p: 65536 * US, strict: false }),
+            Dg::One(nan_pt.clone()),
+            Dg::One(D1::Foci { n: 2, size: 100, cfg: v100.clone(), seg: 1, tr: false, base: ok_point(), over: vec![(99, 1, [0, f(4000.0), Z150])] }),
+            Dg::One(gstm1(0, 0, v100.clone())),
+            Dg::One(foci1(9, 5, v100.clone())),
+            Dg::One(gstm1(0, 7, StmC::Period(1_000_000))),
+            Dg::Pair(D1::Gain { seg: 1, tr: None }, mod1(65537)),
+            Dg::Pair(mod1(1), D1::SilSteps),
+            Dg::Pair(D1::SilSteps, D1::Gain { seg: 0, tr: Some(0xF0) }),
+            // valid ones: same frames as without a mask, the disabled device untouched
+            Dg::One(D1::Mod { len: 10, cfg: Sc::Div(10), seg: 1, tr: false }),
+            Dg::One(D1::Mod { len: 700, cfg: Sc::Div(10), seg: 1, tr: false }),
+            Dg::One(D1::Gain { seg: 1, tr: None }),
+            Dg::One(foci1(3, 100, v100.clone())),
+            Dg::Pair(D1::Mod { len: 300, cfg: Sc::Div(10), seg: 1, tr: false }, D1::Fan),
+        ];
+        for d in &reps {
+            for mask in [[false, true], [true, false], [false, false]] {
+                ctx.case_m(2, Some(&mask), d, "enable-mask");
+            }
+            ctx.case_m(1, Some(&[false]), d, "enable-mask");
+        }
+    }
+
+    // ---- review C05 gap 1: device poses. Two devices at x = +400 / -400 mm; one device at y = 300 mm turned a quarter
+    // turn about z (its local x is the global y); a third kind with both. For every device, axis and side: points whose
+    // LOCAL coordinate lies 0.15 / 1 / 50 mm inside and outside the limit (other coordinates: 0, 0, 150 in that device's
+    // frame), at the first / last focus of small and frame-crossing sequences.
+    {
+        let kinds: Vec<Vec<Pose>> = vec![
+            vec![Pose { t: [400.0, 0.0, 0.0], quarter: 0 }, Pose { t: [-400.0, 0.0, 0.0], quarter: 0 }],
+            vec![Pose { t: [0.0, 300.0, 0.0], quarter: 1 }],
+            vec![Pose { t: [500.0, 0.0, 0.0], quarter: 0 }, Pose { t: [-300.0, 200.0, 10.0], quarter: 3 }],
+        ];
+        let lim_lo = [-124164.0 * 0.025, -125789.0 * 0.025, -131072.0 * 0.025];
+        let lim_hi = 131071.0 * 0.025;
+        for (kk, poses) in kinds.iter().enumerate() {
+            for (di, q) in poses.iter().enumerate() {
+                for axis in 0..3usize {
+                    for (side, lim) in [(1.0f64, lim_hi), (-1.0, lim_lo[axis])] {
+                        for delta in [-50.0f64, -1.0, -0.15, 0.15, 1.0, 50.0] {
+                            if !thorough && (delta == -1.0 || delta == 1.0) && (kk + di + axis) % 2 == 0 {
+                                continue;
+                            }
+                            let mut local = [0.0f64, 0.0, 150.0];
+                            local[axis] = lim + side * delta;
+                            let g = q.to_global(local);
+                            let gf = [g[0] as f32, g[1] as f32, g[2] as f32];
+                            let (n, size, idx) = if (axis + di) % 2 == 0 { (1usize, 2usize, (1usize, 0usize)) } else { (3, 60, (59, 2)) };
+                            ctx.case_posed(poses, gf, n, idx, size, "posed");
+                        }
+                    }
+                }
+            }
+            // the reviewer's two examples and non-finite values
+            for g in [[3400.0f32, 0.0, 150.0], [-3200.0, 0.0, 150.0], [f32::NAN, 0.0, 150.0], [0.0, f32::INFINITY, 150.0]] {
+                ctx.case_posed(poses, g, 2, (1, 1), 3, "posed");
+            }
+        }
+    }
+    // ---- review C05 gap 3: pack-time classes under ParallelMode::On (2 devices)
+    {
+        let pts = |over: Vec<(usize, usize, P3)>| D1::Foci { n: 2, size: 3, cfg: v100.clone(), seg: 0, tr: false, base: ok_point(), over };
+        let reps: Vec<Dg> = vec![
+            Dg::One(mod1(0)),
+            Dg::One(mod1(1)),
+            Dg::One(mod1(65537)),
+            Dg::One(D1::Mod { len: 10, cfg: Sc::Freq(f(7000.0)), seg: 0, tr: false }),
+            Dg::One(D1::Mod { len: 700, cfg: Sc::Period(37_500), seg: 1, tr: true }),
+            Dg::One(D1::Mod { len: 10, cfg: Sc::Freq(NAN), seg: 0, tr: false }),
+            Dg::One(D1::Gain { seg: 0, tr: Some(0x00) }),
+            Dg::One(D1::Gain { seg: 1, tr: Some(0x02) }),
+            Dg::One(D1::SwapGain { seg: 1, mode: 0xF0 }),
+            Dg::One(D1::SilTime { i: 30_000, p: US, strict: true }),
+            Dg::One(D1::SilTime { i: US, p: 65536 * US, strict: false }),
+            Dg::One(pts(vec![(0, 0, [NAN, 0, Z150])])),
+            Dg::One(pts(vec![(2, 1, [0, f(4000.0), Z150])])),
+            Dg::One(gstm1(0, 0, v100.clone())),
+            Dg::One(foci1(9, 5, v100.clone())),
+            Dg::Pair(D1::SilSteps, mod1(65537)),
+            Dg::Pair(D1::Gain { seg: 0, tr: Some(0x01) }, D1::SilSteps),
+            // valid: must still be Ok
+            Dg::One(D1::Mod { len: 10, cfg: Sc::Div(10), seg: 1, tr: false }),
+            Dg::One(D1::Gain { seg: 1, tr: None }),
+        ];
+        for d in &reps {
+            ctx.case_par(d);
+        }
+    }
+    // ---- review C05 gap 4: the same size / sampling / period defects sent as the plain datagram (no With* wrapper:
+    // segment 0, Immediate, infinite loop by default — the op line says so) and with a finite loop. Same lines, same
+    // model answers: a validation that depends on the wrapper or on the loop behaviour shows as a difference.
+    {
+        let mut ds: Vec<D1> = vec![];
+        for len in [0usize, 1, 2, 65536, 65537, 70000] {
+            ds.push(D1::Mod { len, cfg: Sc::Div(10), seg: 0, tr: true });
+        }
+        for sc in [Sc::Freq(f(7000.0)), Sc::Freq(f(0.0)), Sc::Period(37_500), Sc::Period(65536 * US), Sc::Freq(f(4000.0)), Sc::FreqN(f(3999.0))] {
+            ds.push(D1::Mod { len: 10, cfg: sc, seg: 0, tr: true });
+        }
+        for (n, size) in [(1usize, 0usize), (1, 1), (3, 0), (2, 32769), (1, 65537), (0, 5), (9, 5), (2, 10)] {
+            ds.push(D1::Foci { n, size, cfg: v100.clone(), seg: 0, tr: true, base: ok_point(), over: vec![] });
+        }
+        for cfg in [StmC::Period(1_000_001), StmC::Period(0), StmC::Freq(f(50000.0)), StmC::Sc(Sc::Period(37_500)), StmC::Period(1_000_000)] {
+            ds.push(D1::Foci { n: 2, size: 10, cfg: cfg.clone(), seg: 0, tr: true, base: ok_point(), over: vec![] });
+            ds.push(D1::GainStm { mode: 0, size: 10, cfg, seg: 0, tr: true });
+        }
+        for size in [0usize, 1, 1025, 2048, 2] {
+            ds.push(D1::GainStm { mode: 1, size, cfg: v100.clone(), seg: 0, tr: true });
+        }
+        ds.push(D1::Foci { n: 1, size: 3, cfg: v100.clone(), seg: 0, tr: true, base: ok_point(), over: vec![(2, 0, [NAN, 0, Z150])] });
+        for d in &ds {
+            ctx.case_style(1, 1, &Dg::One(d.clone()), "plain-datagram");
+            ctx.case_style(1, 2, &Dg::One(d.clone()), "finite-loop");
+        }
+    }
+
+    // ---- observation (implementation only, one `note` line): what a pack-time rejection leaves in the tx buffer.
+    // `pack_op` advances the message id before `Operation::pack` validates, and ModulationOp / FociSTMOp write
+    // payload bytes before they fail; normally the next send re-packs the slot. A device that is disabled before the
+    // next send is not re-packed, but the link still gets its slot: fresh id, half-written payload.
+    {
+        let r = guarded(|| {
+            let mut w = World::new(2);
+            let per = ALL_RES.len();
+            let r1 = w.send(&Dg::One(D1::Mod { len: 10, cfg: Sc::Freq(f(7000.0)), seg: 0, tr: false }));
+            let before = w.snapshot();
+            w.ctl.geometry_mut()[0].enable = false; // the serial packer stopped at device 0: its slot is the half-written one
+            let sends0 = w.ctl.link().sends;
+            let r2 = w.send(&Dg::One(D1::Fan));
+            let after = w.snapshot();
+            let diff: Vec<String> = (0..per).filter(|&k| before[k] != after[k]).map(|k| before[k].split('=').next().unwrap_or("").to_string()).collect();
+            (r1.is_err(), r2.is_ok(), w.ctl.link().sends - sends0, diff)
+        });
+        ctx.out.line("note stale-tx-after-pack-error", "ok");
+        match r {
+            Ok((true, true, 1, diff)) if !diff.is_empty() => {
+                ctx.out.count("observation:stale-tx-after-pack-error:disabled-device-executes-it");
+                ctx.out.notes.push(format!(
+                    "observation (not judged): 2 devices; send(Modulation 10 samples @ 7000 Hz) -> Err, 0 frames; geometry[0].enable = false; send(ForceFan) -> Ok, 1 frame; the DISABLED device 0 changed {} (its tx slot kept the fresh message id and the half-written payload of the refused datagram)",
+                    diff.join(",")
+                ));
+            }
+            Ok(x) => ctx.out.count(&format!("observation:stale-tx-after-pack-error:other:{}/{}/{}/{}", x.0, x.1, x.2, x.3.len())),
+            Err(p) => ctx.out.violation("C05:stale-tx-scenario-panic".into(), format!("panic: {p}"), vec!["note stale-tx-after-pack-error".into()]),
+        }
+    }
 
     // ---- tuples: every defect class in either member, next to partners of every frame footprint ----
     let partners: Vec<D1> = vec![
